@@ -28,13 +28,13 @@ type Process struct {
 	Task   *Task
 	// Helper: the process leaves a descendant behind (a daemon it started) that inherited its
 	// standard error and never exits.
-	Helper  bool
-	User    interface{} // world-specific per-process log
+	Helper bool
+	User   interface{} // world-specific per-process log
 	// StdinView / StdoutView, when set, are what the process sees as os.Stdin / os.Stdout
 	// (the world's recorders around Stdin / Stdout).
 	StdinView  io.Reader
 	StdoutView io.Writer
-	carrier byte        // race-detector carrier: process exit happens before a successful wait
+	carrier    byte // race-detector carrier: process exit happens before a successful wait
 }
 
 // SetStatus / ExitStatus keep the exit status out of the race detector's sight
@@ -124,6 +124,26 @@ func (s *Sim) WaitForever(p *Process) {
 func (p *Process) String() string { return fmt.Sprintf("%s[%d]", p.Name, p.Pid) }
 
 var pProcWaitBlocked = NewProbe("proc.wait-blocked")
+
+// ExitStatus is what ProcExit panics with in a run without tasks (Inline) while a world has
+// set CatchExit around its call of a tool's main().
+type ExitStatus struct{ Status int }
+
+// CatchExit is set by a world around its call of a main() under Inline.
+var CatchExit bool
+
+// ProcExit is what os.Exit stands for in seamed code.
+//
+//go:norace
+func ProcExit(status int) {
+	if t := Cur(); t != nil && t.Proc != nil {
+		Exit(status)
+	}
+	if Active() && CatchExit {
+		panic(ExitStatus{Status: status})
+	}
+	os.Exit(status)
+}
 
 // ProcStdin is what os.Stdin stands for in seamed code: the standard input of the simulated
 // process the calling task belongs to (the real one outside a simulated process).
